@@ -68,7 +68,7 @@ class G:
         if strvals:
             vals = r.sample(["a", "b", "it's", "x y", "", "1"], n)
             members = [[f"M{i}", ["s", v]] for i, v in enumerate(vals)]
-            cid = self.cid("E") + ("S" if r.random() < 0.3 else "")
+            cid = self.cid("E")   # (StrEnum members duck-type as str in union tries: not modelled)
         else:
             vals = r.sample([0, 1, 2, 5, -3, 10], n)
             members = [[f"M{i}", ["i", str(v)]] for i, v in enumerate(vals)]
@@ -189,7 +189,7 @@ class G:
     def nt_ty(self, d):
         r = self.rng
         n = r.randint(1, self.width)
-        fs = [[f"f{i}", self.ty(d)] for i in range(n)]
+        fs = [[f"n{i}", self.ty(d)] for i in range(n)]   # names disjoint from dataclass field names
         defs = []
         if self.f["nt_defaults"] and r.random() < 0.4:
             k = r.randint(1, n)
